@@ -9,6 +9,7 @@ V = os.path.dirname(os.path.dirname(os.path.abspath(__file__)))
 sys.path.insert(0, V)
 from analysis import extract
 out = {}
+sigs = {}
 for cfg in sys.argv[1:] or ['D', 'W']:
     files, info = extract.facts_for(cfg)
     for f in files:
@@ -24,5 +25,15 @@ for cfg in sys.argv[1:] or ['D', 'W']:
                     names[e['arg'] - 1] = e['n']
             if all(names):
                 out.setdefault(b['path'], names)
+for cfg in sys.argv[1:] or ['D', 'W']:
+    files, info = extract.facts_for(cfg)
+    for f in files:
+        d = json.load(open(f))
+        if d.get('test'):
+            continue
+        for b in d['bodies']:
+            if b['kind'] == 'fn' and '<' not in b['path'] and '::tests' not in b['path']:
+                sigs.setdefault(b['path'], [l['ty'] for l in b['locals'][:b['argc'] + 1]])
+json.dump(sigs, open(os.path.join(V, 'rules', 'fn_sigs.json'), 'w'), indent=0, sort_keys=True)
 json.dump(out, open(os.path.join(V, 'rules', 'param_names.json'), 'w'), indent=0, sort_keys=True)
 print('%d functions' % len(out))
